@@ -365,13 +365,7 @@ func runWeb(ctx context.Context, hc *http.Client, base string, s *Script, callID
 	if s.MetaPlan {
 		req.Header.Set("X-Vf-Plan-Bin", encodeBin([]byte(s.planJSON())))
 	}
-	for _, kv := range s.MD {
-		v := string(kv.V)
-		if strings.HasSuffix(kv.K, "-bin") {
-			v = encodeBin(kv.V)
-		}
-		req.Header.Add(kv.K, v)
-	}
+	addMD(req.Header, s.MD)
 	resp, err := hc.Do(req)
 	if err != nil {
 		t.TransportErr = err.Error()
@@ -448,6 +442,23 @@ func runWeb(ctx context.Context, hc *http.Client, base string, s *Script, callID
 	return t
 }
 
+// addMD puts the custom metadata on an HTTP request / WebSocket handshake.
+// "-bin" values travel base64-encoded; a key spelled with upper case letters
+// is sent in that spelling (no canonicalisation by net/http).
+func addMD(h http.Header, md []KV) {
+	for _, kv := range md {
+		v := string(kv.V)
+		if strings.HasSuffix(strings.ToLower(kv.K), "-bin") {
+			v = encodeBin(kv.V)
+		}
+		if kv.K != strings.ToLower(kv.K) {
+			h[kv.K] = append(h[kv.K], v)
+			continue
+		}
+		h.Add(kv.K, v)
+	}
+}
+
 func encodeBin(b []byte) string { return base64.RawStdEncoding.EncodeToString(b) }
 
 var jsonM = protojson.MarshalOptions{}
@@ -487,13 +498,7 @@ func runHTTP(ctx context.Context, hc *http.Client, base string, s *Script, callI
 	if s.MetaPlan {
 		req.Header.Set("X-Vf-Plan-Bin", encodeBin([]byte(s.planJSON())))
 	}
-	for _, kv := range s.MD {
-		v := string(kv.V)
-		if strings.HasSuffix(kv.K, "-bin") {
-			v = encodeBin(kv.V)
-		}
-		req.Header.Add(kv.K, v)
-	}
+	addMD(req.Header, s.MD)
 	resp, err := hc.Do(req)
 	if err != nil {
 		t.TransportErr = err.Error()
@@ -536,10 +541,19 @@ func runHTTP(ctx context.Context, hc *http.Client, base string, s *Script, callI
 	for _, raw := range objs {
 		m := vschema.NewMsg(chunkMD)
 		if err := protojson.Unmarshal(raw, m); err != nil {
-			// not a reply: with HTTP the status of a failure after the first
-			// reply has no documented representation, so what follows the
-			// replies is only counted.
+			// Not a reply: the end of a stream that failed after the headers
+			// were sent. The first such value has to be the google.rpc.Status
+			// of the failure (what larking appends to the replies; HTTP
+			// cannot change the status line any more).
 			t.Extra++
+			if t.Extra == 1 {
+				st := &spb.Status{}
+				if err := protojson.Unmarshal(raw, st); err != nil {
+					t.BodyErr = fmt.Sprintf("value after the replies is neither a reply nor a google.rpc.Status: %v (%.160q)", err, raw)
+					return t
+				}
+				t.Code, t.Msg, t.Details = st.Code, st.Message, detailStrings(st)
+			}
 			continue
 		}
 		if t.Extra > 0 {
